@@ -206,20 +206,35 @@ def _qs(quals):
 
 
 # ----------------------------------------------------------------- deviation models
-def drop_volatile(t):
-    if t[0] == "b":
-        return t
-    if t[0] in "vW":
-        return drop_volatile(t[1])
-    return (t[0], drop_volatile(t[1]))
+def volatile_variants(t):
+    """Every term obtained from t by removing a non-empty subset of its volatile qualifiers."""
+    def rec(x):
+        if x[0] == "b":
+            return [(x, False)]
+        out = []
+        for sub, changed in rec(x[1]):
+            out.append(((x[0], sub), changed))
+            if x[0] in "vW":
+                out.append((sub, True))
+        return out
+    return [x for x, changed in rec(t) if changed]
 
 
 def member_to_plain_pointer(t):
+    """Pointers to data members become plain pointers (member function pointers are kept)."""
     if t[0] == "b":
         return t
-    if t[0] == "m":
+    if t[0] == "m" and strip_cv(t[1])[0] != "f":
         return ("p", member_to_plain_pointer(t[1]))
     return (t[0], member_to_plain_pointer(t[1]))
+
+
+def drop_west_const(t):
+    if t[0] == "b":
+        return t
+    if t[0] == "C":
+        return drop_west_const(t[1])
+    return (t[0], drop_west_const(t[1]))
 
 
 def prefix_binds_before_suffix(t):
@@ -241,36 +256,37 @@ def prefix_binds_before_suffix(t):
     return (t[0], sub)
 
 
+# name, transform; volatile is handled separately (any non-empty subset may be dropped)
 DEVIATIONS = [
-    ("volatile-dropped", "v", drop_volatile),
-    ("member-pointer-as-pointer", "m", member_to_plain_pointer),
-    ("array-suffix-unparenthesised", "a", prefix_binds_before_suffix),
+    ("member-pointer-as-pointer", member_to_plain_pointer),
+    ("array-suffix-unparenthesised", prefix_binds_before_suffix),
+    ("west-const-dropped", drop_west_const),
 ]
 
 
-def valid(t):
-    """Re-check a transformed term with the construction rules."""
-    if t[0] == "b":
-        return True
-    return valid(t[1]) and can_apply(t[0], t[1])
-
-
-def alternatives(t):
-    """[(names, term)] for every non-empty subset of deviation models that changes t."""
+def alternatives(t, allowed=None):
+    """[(names, term)]: the types a known-wrong rendering of t would denote.  names is the
+    tuple of deviation models applied.  allowed: names that may be used (None = all but
+    west-const-dropped, which needs a syntactic precondition the caller checks)."""
+    if allowed is None:
+        allowed = {"volatile-dropped", "member-pointer-as-pointer", "array-suffix-unparenthesised"}
     out = []
     seen = {t}
-    for r in range(1, len(DEVIATIONS) + 1):
-        for combo in itertools.combinations(DEVIATIONS, r):
-            x = t
-            for _, _, fn in combo:
-                if x is not None:
-                    x = fn(x)
-            if x is None or x in seen:
-                continue
-            if not _valid_loose(x):
-                continue
-            seen.add(x)
-            out.append((tuple(n for n, _, _ in combo), x))
+    starts = [((), t)]
+    if "volatile-dropped" in allowed:
+        starts += [(("volatile-dropped",), v) for v in volatile_variants(t)]
+    devs = [d for d in DEVIATIONS if d[0] in allowed]
+    for names0, t0 in starts:
+        for r in range(0, len(devs) + 1):
+            for combo in itertools.combinations(devs, r):
+                x = t0
+                for _, fn in combo:
+                    if x is not None:
+                        x = fn(x)
+                if x is None or x in seen or not _valid_loose(x):
+                    continue
+                seen.add(x)
+                out.append((names0 + tuple(n for n, _ in combo), x))
     return out
 
 
